@@ -19,6 +19,12 @@ TARGETS = {  # mutant -> checks to run (first = the property it was seeded for)
     "C15-m5": ["C15", "C07"],
     "C18-m5": ["C18", "C02"],
     "C07-m7": ["C07", "C10", "C15"],
+    "C08-m9": ["C08", "C11"],
+    "C07-m9": ["C07", "C08"],
+    "C08-m10": ["C08", "C12"],
+    "C10-m9": ["C10", "C12"],
+    "C12-m10": ["C12", "C16"],
+    "C17-m10": ["C17"],
     "C14-m7": ["C14", "C16"],
     "C15-m7": ["C15", "C07"],
     "C15-m8": ["C15", "C10"],
